@@ -9,7 +9,7 @@ From DV Require Import Proofs.NameValid Proofs.NameText Proofs.TokEsc Proofs.Tok
 Open Scope Z_scope.
 
 Definition is_rest (f : tfield) : bool :=
-  match f with FHexRest | FB64Rest _ | FTxtRest | FBitmap | FQOpt | FNamesRest | FB64RestOpt => true | _ => false end.
+  match f with FHexRest | FB64Rest _ | FTxtRest | FBitmap | FQOpt | FNamesRest | FB64RestOpt | FB64RestE => true | _ => false end.
 
 (* non-empty; the fields that read the rest of the line come last *)
 Fixpoint schema_wf (fs : list tfield) : Prop :=
@@ -49,6 +49,15 @@ Definition val_ok (f : tfield) (v : tval) : Prop :=
   | FNamesRest, VNames l => Forall (fun n => Valid n /\ AllBytes n) l
   | FNameNoRel, VName n => Valid n /\ AllBytes n
   | FB64RestOpt, VBytes b => all_bytes b = true /\ zlen b <= 65535
+  | FB64RestE, VBytes b => all_bytes b = true
+  | FGw ipsec, VGw g a gw =>
+      0 <= a <= 255 /\ (ipsec = false -> a = 0) /\
+      match gw with
+      | GwNone => g = 0
+      | GwText t => (g = 1 /\ exists b, all_bytes b = true /\ length b = 4%nat /\ ipv4_ntoa b = Ok t)
+                    \/ (g = 2 /\ exists b, all_bytes b = true /\ length b = 16%nat /\ ipv6_ntoa b = Ok t)
+      | GwName n => g = 3 /\ Valid n /\ AllBytes n
+      end
   | _, _ => False
   end.
 
@@ -60,6 +69,7 @@ Definition expect (st : style) (c : pctx) (f : tfield) (v : tval) : res tval :=
   | FName, VName n => do n' <- name_path st c n; Ok (VName n')
   | FNameNoRel, VName n => do n' <- name_path st (mkPctx None false None) n; Ok (VName n')
   | FNamesRest, VNames l => do l' <- map_res (name_path st c) l; Ok (VNames l')
+  | FGw _, VGw g a (GwName n) => do n' <- name_path st c n; Ok (VGw g a (GwName n'))
   | _, _ => Ok v
   end.
 
@@ -191,7 +201,7 @@ Lemma field_ok sty c f v ftext v' R q bl :
         (is_rest f = true -> (exists te, ungot st_end = Some te /\ is_eol_or_eof te = true) \/ exists q', st_end = stq q' R).
 Proof.
   intros (Hhs & Hbs & HO) Hv Hp He Hbl HR1 HR2.
-  destruct f as [maxv| |tokmax ctormax ne| | |sc| |v6| | | | | |k| |maxc| |en| | | | |bmax| | |]; destruct v as [z|b|n|l|ws|nl]; cbn [val_ok] in Hv; try contradiction;
+  destruct f as [maxv| |tokmax ctormax ne| | |sc| |v6| | | | | |k| |maxc| |en| | | | |bmax| | | |ipsec|]; destruct v as [z|b|n|l|ws|nl|g a gw]; cbn [val_ok] in Hv; try contradiction;
     cbn [print_field] in Hp; cbn [expect] in He; cbn [is_rest] in HR1, HR2.
   - (* FDec *)
     inversion Hp; subst ftext. inversion He; subst v'. specialize (HR1 eq_refl).
@@ -678,6 +688,99 @@ Proof.
       destruct (G5 stX HX HL true) as (se & te & P1 & P2 & P3).
       exists (VBytes s), se. split; [exact P1|]. split; [|split; [discriminate|intros _; left; exists te; split; assumption]].
       cbn [ctor_field]. replace (zlen s >? 65535) with false by lia. reflexivity.
+  - (* FGw *)
+    destruct Hv as (Ha & Ha0 & Hgw). specialize (HR1 eq_refl).
+    (* the gateway token gt, what it is read back as (raw), and what the constructor makes of it *)
+    assert (Hg : exists gt gw', 
+              (match gw with GwNone => Ok [46] | GwText t => Ok t | GwName n => name_to_styled_text sty n end) = Ok gt /\
+              units gt /\ gt <> [] /\ 0 <= g <= 3 /\ v' = VGw g a gw' /\
+              forall q0 X, word_end X ->
+                exists raw, (if (g =? 0) || (g =? 1) || (g =? 2)
+                             then do ts <- get_string (stq q0 ([32] ++ gt ++ X)) 0; Ok (VGw g a (GwText (fst ts)), snd ts)
+                             else if g =? 3 then do ns <- get_name c (stq q0 ([32] ++ gt ++ X)); Ok (VGw g a (GwName (fst ns)), snd ns)
+                             else Lib eSyntax) = Ok (raw, stq false X)
+                            /\ ctor_field (FGw ipsec) raw = Ok (VGw g a gw')).
+    { destruct gw as [|t|n].
+      - subst g. inversion He; subst v'. exists [46], GwNone. split; [reflexivity|]. split; [apply units_safe; reflexivity|].
+        split; [discriminate|]. split; [lia|]. split; [reflexivity|]. intros q0 X HX0.
+        exists (VGw 0 a (GwText [46])). cbn [Z.eqb orb]. rewrite get_string_word by (auto; discriminate). cbn [bind fst snd].
+        split; reflexivity.
+      - inversion He; subst v'. destruct Hgw as [(-> & b & Hb & Hl & Ent)|(-> & b & Hb & Hl & Ent)].
+        + destruct (ipv4_roundtrip b Hb Hl) as (t' & E1 & E2). rewrite Ent in E1. inversion E1; subst t'.
+          destruct (ipv4_ntoa_word b t Hb Ent) as [Hs Hne].
+          exists t, (GwText t). split; [reflexivity|]. split; [apply units_safe, Hs|]. split; [exact Hne|]. split; [lia|].
+          split; [reflexivity|]. intros q0 X HX0. exists (VGw 1 a (GwText t)). cbn [Z.eqb orb].
+          rewrite get_string_word by auto. cbn [bind fst snd]. split; [reflexivity|]. cbn [ctor_field Z.eqb]. rewrite E2. reflexivity.
+        + destruct (ipv6_roundtrip b Hb Hl) as (t' & E1 & E2). rewrite Ent in E1. inversion E1; subst t'.
+          destruct (ipv6_ntoa_word b t Hb Ent) as [Hs Hne].
+          exists t, (GwText t). split; [reflexivity|]. split; [apply units_safe, Hs|]. split; [exact Hne|]. split; [lia|].
+          split; [reflexivity|]. intros q0 X HX0. exists (VGw 2 a (GwText t)). cbn [Z.eqb orb].
+          rewrite get_string_word by auto. cbn [bind fst snd]. split; [reflexivity|]. cbn [ctor_field Z.eqb]. rewrite E2. reflexivity.
+      - destruct Hgw as (-> & V & HB). cbn [expect] in He.
+        destruct (name_path sty c n) as [n'| |] eqn:E2; cbn [bind] in He; try discriminate. inversion He; subst v'.
+        destruct (name_to_styled_text sty n) as [t| |] eqn:E1.
+        2,3: (cbn [bind] in Hp; discriminate).
+        assert (Hw : units t /\ t <> []).
+        { unfold name_to_styled_text in E1.
+          destruct (choose_relativity n (s_origin sty) (s_relativize sty)) as [n1| |] eqn:E3; cbn [bind] in E1; try discriminate.
+          inversion E1; subst t. destruct (choose_relativity_ok _ _ _ _ V HB HO E3) as [V1 B1].
+          destruct (name_text_word n1 V1 B1) as (Hu & Hne & _). split; assumption. }
+        destruct Hw as [Hu Hne].
+        exists t, (GwName n'). split; [reflexivity|]. split; [exact Hu|]. split; [exact Hne|]. split; [lia|].
+        split; [reflexivity|]. intros q0 X HX0. exists (VGw 3 a (GwName n')). cbn [Z.eqb orb].
+        rewrite get_name_word by auto. unfold utok. rewrite (as_name_printed sty c n t (has_bs t) V HB HO E1). rewrite E2.
+        cbn [bind fst snd]. split; reflexivity. }
+    destruct Hg as (gt & gw' & Egt & Hu & Hne & Hg03 & -> & Hread).
+    rewrite Egt in Hp. cbn [bind] in Hp. inversion Hp; subst ftext. clear Hp.
+    pose proof (dec_safe g ltac:(lia)) as Hsg.
+    set (mid := if ipsec then dec a ++ [32] else []).
+    assert (Etext : bl ++ (dec g ++ 32 :: mid ++ gt) ++ R = bl ++ dec g ++ ([32] ++ mid ++ gt ++ R))
+      by (rewrite <- !app_assoc; cbn [app]; rewrite <- !app_assoc; reflexivity).
+    fold mid. rewrite Etext.
+    exists (mkTok tIDENT (dec g) (has_bs (dec g)) None), (stq false ([32] ++ mid ++ gt ++ R)).
+    split; [apply get0_word_q; auto using units_safe, dec_nonempty; apply word_end_blank32|].
+    split; [reflexivity|]. split.
+    { unfold tok_plain, is_identifier. cbn [ttype tvalue]. rewrite safe_word_not_hash by exact Hsg. repeat split; reflexivity. }
+    split; [apply stq_len_word|].
+    intros stX HX _.
+    assert (Hmid : (do as_ <- (if ipsec then get_uint max8 (stq false ([32] ++ mid ++ gt ++ R)) 10
+                              else if g >? 127 then Lib eSyntax else Ok (0, stq false ([32] ++ mid ++ gt ++ R)));
+                    Ok as_) = Ok (a, stq false ([32] ++ gt ++ R))).
+    { unfold mid. destruct ipsec.
+      - replace ([32] ++ (dec a ++ [32]) ++ gt ++ R) with ([32] ++ dec a ++ ([32] ++ gt ++ R)) by (rewrite <- !app_assoc; reflexivity).
+        rewrite (get_uint_word false [32] a max8 ([32] ++ gt ++ R) eq_refl ltac:(unfold max8; lia) (word_end_blank32 _)). reflexivity.
+      - replace (g >? 127) with false by lia. rewrite (Ha0 eq_refl). reflexivity. }
+    destruct (Hread false R HR1) as (raw & Eraw & Ector).
+    exists raw, (stq false R). split; [|split; [exact Ector|split; [intros _; exists false; reflexivity|discriminate]]].
+    cbn [parse_field]. rewrite (get_uint_from g max8 stX _ ltac:(unfold max8; lia) HX). cbn [bind fst snd].
+    match type of Hmid with (do as_ <- ?e; Ok as_) = _ => destruct e as [[a1 s2]| |] eqn:Em; cbn [bind] in Hmid; try discriminate end.
+    inversion Hmid; subst a1 s2. cbn [bind fst snd]. exact Eraw.
+  - (* FB64RestE *)
+    inversion Hp; subst ftext. inversion He; subst v'. specialize (HR2 eq_refl). clear Hp.
+    destruct b as [|x b'].
+    + unfold styled_base64ify. change (b64encode []) with (@nil Z). rewrite wordbreak_nil. cbn [app].
+      destruct (get0_end_q_len q bl R Hbl HR2) as (t & st & H1 & H2 & H3 & H4 & H5 & E).
+      exists t, st. split; [exact E|]. split; [exact H4|]. split.
+      { destruct (eol_not_ws t H1) as [A B]. unfold tok_plain. rewrite A, B, H2. repeat split; reflexivity. }
+      split; [unfold stq; cbn [inp]; rewrite !app_length; lia|].
+      intros stX HX _.
+      assert (Hst : exists st2, unget st t = Ok st2 /\ ungot st2 = Some t).
+      { unfold unget. rewrite H4. eexists. split; reflexivity. }
+      destruct Hst as (st2 & U1 & U2).
+      exists (VBytes []), st2. split; [|split; [reflexivity|split; [discriminate|intros _; left; exists t; split; assumption]]].
+      cbn [parse_field]. unfold concatenate_remaining_identifiers, rem_fuel. rewrite cri_unfold. unfold get_unescaped.
+      rewrite HX. cbn [bind fst snd]. unfold unescape. rewrite H3. cbn [negb bind fst snd]. rewrite H1, U1.
+      cbn [bind fst snd orb negb is_nil utf8_encode]. reflexivity.
+    + set (s := x :: b') in *.
+      destruct (b64encode_safe s Hv) as [Hs Ha].
+      assert (Hch : chunked (b64encode s) (styled_base64ify s (s_b64_chunk sty) (s_b64_sep sty)))
+        by (apply wordbreak_chunked; assumption).
+      assert (Hne' : b64encode s <> []) by (unfold s; destruct b' as [|y [|z b'']]; discriminate).
+      destruct (rest_bytes_ok b64decode (b64encode s) s _ R q bl Hch Hne' Ha (b64decode_b64encode s Hv) Hbl HR2)
+        as (t1 & s1 & G1 & G2 & G3 & G4 & G5).
+      exists t1, s1. split; [exact G1|]. split; [exact G2|]. split; [exact G3|]. split; [exact G4|]. intros stX HX HL.
+      destruct (G5 stX HX HL true) as (se & te & P1 & P2 & P3).
+      exists (VBytes s), se. split; [exact P1|]. split; [reflexivity|]. split; [discriminate|]. intros _. left. exists te. split; assumption.
 Qed.
 
 (* ---------- the whole field list ---------- *)
@@ -701,7 +804,7 @@ Qed.
 (* the text of a field that brings its own separator is empty or starts with a blank *)
 Lemma tail_text_shape sty f v b : field_sep f = [] -> print_field sty f v = Ok b -> b = [] \/ exists b', b = 32 :: b'.
 Proof.
-  intros Hs Hp. destruct f; try discriminate; destruct v as [z|x|n|l|ws|nl]; try discriminate; cbn [print_field] in Hp.
+  intros Hs Hp. destruct f; try discriminate; destruct v as [z|x|n|l|ws|nl|g a gw]; try discriminate; cbn [print_field] in Hp.
   - (* FBitmap *) destruct ws as [|w ws]; [inversion Hp; left; reflexivity|]. cbn [bitmap_to_text] in Hp.
     destruct (map_res rdtype_to_text (window_types (fst w) 0 (snd w))); cbn [bind] in Hp; try discriminate.
     destruct (bitmap_to_text ws); cbn [bind] in Hp; try discriminate. inversion Hp. right. eexists. reflexivity.
